@@ -128,6 +128,8 @@ enum Constraint {
     DivTop(TyID),
     DivBot(TyID),
     DivRes(TyID),
+    /// The other end of `DivRes`: this type is the dividend, the argument is the quotient.
+    DivResOf(TyID),
     Equ(TyID),
     Cmp(TyID),
     CmpEqu(TyID),
@@ -1382,6 +1384,7 @@ impl TypeChecker {
                 Constraint::DivTop(b) => self.div(span, ctx, a, *b, &mut BTreeSet::new()), // NOTE(ed): Arguments are flipped
                 Constraint::DivBot(b) => self.div(span, ctx, *b, a, &mut BTreeSet::new()), // NOTE(ed): Arguments are flipped
                 Constraint::DivRes(b) => self.div_res(span, ctx, *b, a, &mut BTreeSet::new()),
+                Constraint::DivResOf(b) => self.div_res(span, ctx, a, *b, &mut BTreeSet::new()),
                 Constraint::Equ(b) => self.equ(span, ctx, a, *b),
                 Constraint::Cmp(b) => self.cmp(span, ctx, a, *b, &mut BTreeSet::new()),
                 Constraint::CmpEqu(b) => self
@@ -1837,6 +1840,7 @@ impl TypeChecker {
                         C::DivTop(x) => C::DivTop(self.inner_copy(*x, seen)),
                         C::DivBot(x) => C::DivBot(self.inner_copy(*x, seen)),
                         C::DivRes(x) => C::DivRes(self.inner_copy(*x, seen)),
+                        C::DivResOf(x) => C::DivResOf(self.inner_copy(*x, seen)),
                         C::Equ(x) => C::Equ(self.inner_copy(*x, seen)),
                         C::Cmp(x) => C::Cmp(self.inner_copy(*x, seen)),
                         C::CmpEqu(x) => C::CmpEqu(self.inner_copy(*x, seen)),
@@ -1954,6 +1958,7 @@ impl TypeChecker {
                 | C::DivTop(x)
                 | C::DivBot(x)
                 | C::DivRes(x)
+                | C::DivResOf(x)
                 | C::Equ(x)
                 | C::Cmp(x)
                 | C::CmpEqu(x)
@@ -2272,7 +2277,12 @@ impl TypeChecker {
         match (self.find_type(a), self.find_type(b)) {
             (Type::Float | Type::Int, Type::Float) => Ok(()),
 
-            (Type::Unknown, _) => Ok(()),
+            (Type::Unknown, _) => {
+                // We cannot tell yet - the dividend has to remember its quotient, nothing else
+                // looks at the quotient again once the dividend is known.
+                self.add_constraint(a, span, Constraint::DivResOf(b));
+                Ok(())
+            }
 
             (Type::Float | Type::Int, _) => {
                 let float = self.push_type(Type::Float);
